@@ -387,7 +387,7 @@ pub fn run_c10_gate(ctx: &Ctx) {
                     let d = J::new().s("type", stringify!($ty)).b("declared_return_is_bool", $returns_bool).b("accepted", ok).b("value", value).s("msg", &r.clone().err().unwrap_or_default());
                     let sig = if $returns_bool && !ok { "bool-function-refused" }
                         else if !$returns_bool && ok { "non-bool-function-accepted" }
-                        else if !ok && panicobs::classify(&r.clone().err().unwrap_or_default()) != "bool-sig-mismatch" { "refusal-is-not-the-boolean-signature-panic" }
+
                         else if !ok && (touched != 0 || !intact) { "refusal-after-memory-was-touched" }
                         else if called == Some(false) { "accepted-but-call-did-not-return-the-value" }
                         else { "" };
